@@ -53,7 +53,7 @@ for op in (4, 20, 36, 52):
         seeds["options"].append(bytes([op]) + (b"" if op & 16 else b"_1" + FS) + b(nm) + FS + b"a=1.5\nx.y=true\na_1=3\nb=(1,2)")
         seeds["options"].append(bytes([op]) + (b"" if op & 16 else b"_1" + FS) + b(nm) + FS + b"a=1e999\nx.y=99999999999\na_1=1e-999")
 for sepb in (0, 1, 2):
-    for v in ["1,2,3", "(1,2,3)", "((1,2),(3,4))", "1-5,7", "a,b", "", "(", "()", "1:3", "(1,2),(3)", "5-1", "1;2;3", "(1,2)(3,4)", "-"]:
+    for v in ["1,2,3", "(1,2,3)", "((1,2),(3,4))", "1-5,7", "a,b", "", "(", "()", "1:3", "(1,2),(3)", "5-1", "1;2;3", "(1,2)(3,4)", "-", "2147483646:2147483647", "2147483640-2147483647", "-2147483648:-2147483646", "1:2147483647", "99999999999:99999999999", "2147483647"]:
         seeds["options"].append(bytes([5, sepb]) + b"v" + FS + b(v))
 for pat in ["*", "a*", "*a", "a*b", "ab", "", "**", "a**b", "*a*"]:
     seeds["options"].append(bytes([6]) + b(pat) + FS + b"a\nab\nabab\nba\nb\n\naab")
